@@ -129,15 +129,16 @@ func c04heapops(c *an.Ctx) {
 		})
 	}
 	// heap.Push / heap.Remove are the insert/remove operations actually used
-	addDef := c.Fn("nsqd", "(*Channel).addToDeferredPQ")
-	if addDef != nil {
-		okPush := false
-		an.Instrs(addDef, func(in ssa.Instruction) {
-			if call, ok := in.(*ssa.Call); ok && an.StdCallee(call, "container/heap", "Push") {
-				okPush = true
-			}
-		})
-		c.Check(okPush, addDef, "deferred insert is heap.Push", addDef.Pos(), "", "addToDeferredPQ does not insert with container/heap.Push")
+	// every path of StartDeferredTimeout that reports success inserted with container/heap.Push (directly or through a helper)
+	if sd := c.Fn("nsqd", "(*Channel).StartDeferredTimeout"); sd != nil {
+		addDef := heapInsert(c, "deferredPQ")
+		q := &an.PathQ{Fn: sd, StartEntry: true, Sink: sinkSuccessReturn, Cut: func(in ssa.Instruction, _ *an.PathState) bool { return addDef.is(in) }}
+		w, f := q.Find()
+		if f || len(addDef.sites) == 0 {
+			c.Bad(sd, "deferred insert is heap.Push", sd.Pos(), "StartDeferredTimeout can report success without container/heap.Push(&c.deferredPQ, item)", w)
+		} else {
+			c.OK(sd, "deferred insert is heap.Push", sd.Pos(), "")
+		}
 	}
 	// (2) the in-flight queue sifts in its own Push / Pop / Remove
 	for _, spec := range []struct{ m, sift string }{{"Push", "up"}, {"Pop", "down"}, {"Remove", "down"}} {
